@@ -317,6 +317,17 @@ impl Gen {
     fn items(&mut self, si: usize) -> String {
         let n = self.rng.below(8);
         let mut v = Vec::new();
+        if self.rng.chance(1, 4) {
+            // a run of distinct strings of one length (neighbours that differ only in content), now and then
+            // with a genuine repeat in the middle
+            let tag = self.rng.below(90) + 10;
+            let len_pad = self.rng.below(3) as usize;
+            let m = 2 + self.rng.below(6);
+            for i in 0..m {
+                let j = if i > 0 && self.rng.chance(1, 6) { i - 1 } else { i };
+                v.push(hex(format!("r{tag}{}{j}", "_".repeat(len_pad)).as_bytes()));
+            }
+        }
         for _ in 0..n {
             let s = self.some_string(si);
             v.push(hex(&s));
